@@ -37,3 +37,9 @@ Definition B_ (ins outs : list nat) (io : list (nat * nat)) (k : kind) (eff : bo
   mkSop ins outs io k eff.
 Definition F_ (lb ub : nat) (step : option nat) (iters res bargs : list nat) (body : list sop)
   (yield_ : list nat) : op := For (mkFor lb ub step iters res bargs body yield_).
+Definition BS_ (ins outs : list nat) (io : list (nat * nat)) (k : kind) (eff : bool) : bop :=
+  BSimple (mkSop ins outs io k eff).
+Definition BF_ (lb ub : nat) (step : option nat) (iters res bargs : list nat) (body : list sop)
+  (yield_ : list nat) : bop := BFor (mkFor lb ub step iters res bargs body yield_).
+Definition F2_ (lb ub : nat) (step : option nat) (iters res bargs : list nat) (body : list bop)
+  (yield_ : list nat) : op := For2 (mkFor2 lb ub step iters res bargs body yield_).
